@@ -7,6 +7,7 @@ pub mod c01;
 pub mod c02;
 pub mod c03;
 pub mod c04;
+pub mod c05;
 pub mod c06;
 pub mod c07;
 pub mod c08;
@@ -48,6 +49,7 @@ pub fn run(id: &str, tier: Tier) -> i32 {
         "C02" => c02::run(tier),
         "C03" => c03::run(tier),
         "C04" => c04::run(tier),
+        "C05" => c05::run(tier),
         "C06" => c06::run(tier),
         "C07" => c07::run(tier),
         "C08" => c08::run(tier),
@@ -71,6 +73,7 @@ pub fn replay(id: &str, file: &serde_json::Value) -> i32 {
         "C02" => c02::replay,
         "C03" => c03::replay,
         "C04" => c04::replay,
+        "C05" => c05::replay,
         "C06" => c06::replay,
         "C07" => c07::replay,
         "C08" => c08::replay,
